@@ -333,15 +333,15 @@ impl Display for CreateTable {
                 write!(f, " LOCATION '{}'", escape_single_quote_string(location))?;
             }
         }
+        if !self.with_options.is_empty() {
+            write!(f, " WITH ({})", display_comma_separated(&self.with_options))?;
+        }
         if !self.table_properties.is_empty() {
             write!(
                 f,
                 " TBLPROPERTIES ({})",
                 display_comma_separated(&self.table_properties)
             )?;
-        }
-        if !self.with_options.is_empty() {
-            write!(f, " WITH ({})", display_comma_separated(&self.with_options))?;
         }
         if let Some(engine) = &self.engine {
             write!(f, " ENGINE={engine}")?;
